@@ -154,7 +154,7 @@ PROPS = {
             "JSON parsing is not re-proved: the body classifier is validated against encoding/json by serving several textual variants of every class",
         ],
         "assumptions": [
-            "deadline hypothesis (h_deadline of C10_*_time_partial): context / net/http / TLS / kernel end a request at most eps after its context deadline; the timed model makes it concrete as 'a stalled step ends exactly at the deadline'; measured on every run with slack 300 ms",
+            "deadline hypothesis (h_deadline of C10_*_time_partial): context / net/http / TLS / kernel end a request at most eps after its context deadline; the timed model makes it concrete as 'a stalled step ends exactly at the deadline'; measured on every run with slack 400 ms (a duration over the bound is re-measured alone, at most twice, before it is reported)",
             "Spec readings (judgements): 'a body that parses as a JSON object' = the WHOLE body is one JSON text whose value is an object (null, trailing data after the object and a body that never ends are not); elastic: status code not part of the statement; docker: 'API call succeeded' = status 200..399 and the object fits the Info schema; 'it answered' = the probed target's own answer, not that of an endpoint it redirects to; the secondary value shown is absent or an object the target itself sent",
             "docker: one deadline per probe (as the code and DESIGN.md say), the negotiation ping comes out of the same budget",
         ],
